@@ -68,6 +68,17 @@ func (in *Interp) intrinsic(fn *ssa.Function, args []Value) (Value, bool) {
 		// func zzSymLenX(n int) []T : a slice of symbolic length n that must never be indexed
 		n := args[0].(*smt.Term)
 		return &SliceVal{SymLen: n}, true
+	case name == "zzHavocHidden":
+		tag, _ := in.cStr(args[1])
+		return in.havocHidden(args[0], tag), true
+	case name == "zzSnapshotHidden":
+		return in.snapshotHidden(args[0]), true
+	case name == "zzRestoreHidden":
+		in.restoreHidden(args[0], args[1])
+		return &TupleVal{}, true
+	case name == "zzSchedule":
+		in.SchedReverse = !args[0].(*smt.Term).IsFalse()
+		return &TupleVal{}, true
 	case name == "zzAssume":
 		c := args[0].(*smt.Term)
 		in.assume(c)
@@ -135,6 +146,10 @@ func zzExport(tag string, v interface{}) { panic("zz") }
 func zzConcrete(v int) int             { panic("zz") }
 func zzUnsupported(msg string)         { panic("zz") }
 func zzIsSymbolic(v int) bool          { panic("zz") }
+func zzHavocHidden(root interface{}, tag string) int { panic("zz") }
+func zzSnapshotHidden(root interface{}) []uint64     { panic("zz") }
+func zzRestoreHidden(root interface{}, vals []uint64) { panic("zz") }
+func zzSchedule(reverse bool)          { panic("zz") }
 `
 
 // Verdict of one obligation.
